@@ -12,7 +12,7 @@ import types
 import z3
 
 from . import sym as S
-from .sym import (ExcVal, SBool, SBytes, SBytesIO, SInt, SItems, SMap, SObj, SRange, SReal, SSeq, Sym, T, Ty, Unsupported, concrete_of,
+from .sym import (ExcVal, SBool, SBytes, SBytesIO, SInt, SItems, SMap, SObj, SRange, SReal, SRef, SSeq, Sym, T, Ty, Unsupported, concrete_of,
                   seq_lit, simp, to_z3, wrap)
 
 
@@ -69,6 +69,22 @@ def get_attr(I, v, name):
                     return itp.BoundMethod(v.obj, f, name)
                 return d
         I.raise_py(AttributeError, name)
+    if isinstance(v, SRef):
+        M = _m()
+        r = M.heap_get(I, v, name)
+        clsname, decl = I.reg.heap_decl(v.cls)
+        if decl is not None and name in decl:
+            return r
+        if name == "__class__":
+            return v.cls
+        d = I.class_lookup(v.cls, name)
+        if isinstance(d, types.FunctionType):
+            return itp.BoundMethod(v, d, name)
+        if isinstance(d, property):
+            return I.call(itp.BoundMethod(v, itp.unwrap_function(d.fget), name), [], {})
+        if d is None:
+            raise Unsupported(f"attribute {name} of heap class {v.cls.__name__} is not declared")
+        return d
     if isinstance(v, SObj):
         if name in v.fields:
             return v.fields[name]
@@ -120,6 +136,8 @@ def get_attr(I, v, name):
 
 
 def set_attr(I, obj, name, v):
+    if isinstance(obj, SRef):
+        return _m().heap_set(I, obj, name, v)
     if isinstance(obj, SObj):
         if getattr(obj, "frozen", False) or (is_immutable_class(obj.cls) and not getattr(obj, "in_init", False)):
             f = I.class_lookup(obj.cls, "__setattr__")
@@ -282,6 +300,14 @@ def call_class(I, cls, args, kwargs):
         except Exception as e:
             raise itp.PyExc(ExcVal(type(e), e.args))
     mod = getattr(cls, "__module__", "")
+    if I.reg.heap_decl(cls)[1] is not None:
+        M = _m()
+        ref = M.heap_new(I, cls)
+        init = real_init(cls)
+        if init is not None and init is not object.__init__:
+            I.inlined.add(f"{cls.__module__}.{cls.__qualname__}.__init__")
+            I.run_function(init, [ref] + list(args), kwargs)
+        return ref
     if mod.startswith("dns."):
         key = f"{cls.__module__}.{cls.__qualname__}.__init__"
         obj = SObj(cls, {}, label=cls.__name__)
@@ -398,15 +424,15 @@ def sym_method(I, recv, name, args, kwargs):
             if I.spec:
                 if default is None:
                     raise Unsupported("dict.get with None default inside a specification")
-                return M.ite(I, z3.Select(recv.has, kz), wrap(recv.vty, z3.Select(recv.val, kz)), default)
+                return M.ite(I, z3.Select(recv.has, kz), M.map_value(I, recv, kz), default)
             if I.path.branch(z3.Select(recv.has, kz), note="dict.get"):
-                return wrap(recv.vty, z3.Select(recv.val, kz))
+                return M.map_value(I, recv, kz)
             return default
         if name == "pop":
             kz = M.key_of(I, args[0])
             M.drop_key_order(recv)
             if I.path.branch(z3.Select(recv.has, kz), note="dict.pop"):
-                val = recv.vty.value if recv.vty.kind == "const" else wrap(recv.vty, z3.Select(recv.val, kz))
+                val = recv.vty.value if recv.vty.kind == "const" else M.map_value(I, recv, kz)
                 recv.has = z3.Store(recv.has, kz, z3.BoolVal(False))
                 if recv.size is not None:
                     recv.size = simp(recv.size - 1)
@@ -902,7 +928,7 @@ def m_isinstance(I, args, kwargs):
 def _isinst(v, c):
     import collections.abc
 
-    if isinstance(v, SObj):
+    if isinstance(v, (SObj, SRef)):
         return isinstance(c, type) and issubclass(v.cls, c)
     if isinstance(v, ExcVal):
         return isinstance(c, type) and issubclass(v.cls, c)
@@ -1068,8 +1094,11 @@ def m_time(I, args, kwargs):
     t = z3.Real(p.fresh_name(f"time_{k}"))
     if I.ghost_clock:
         p.assume(t >= I.ghost_clock[-1])
+    elif I._time0 is not None:
+        p.assume(t >= I._time0)
     I.ghost_clock.append(t)
     I.ghost[f"time_{k}"] = SReal(t)
+    I.ghost["time_last"] = SReal(t)
     return SReal(t)
 
 
@@ -1261,6 +1290,8 @@ def _quant_parts(I, call_node):
         return None
     if isinstance(g.iter, ast.Call) and isinstance(g.iter.func, ast.Name) and g.iter.func.id == "range":
         return call_node.func.id, g.target.id, g.iter.args, g.ifs, gen.elt
+    if isinstance(g.iter, ast.Call) and isinstance(g.iter.func, ast.Name) and g.iter.func.id == "refs" and len(g.iter.args) == 1:
+        return call_node.func.id, g.target.id, ("refs", g.iter.args[0]), g.ifs, gen.elt
     if isinstance(g.iter, (ast.Name, ast.Attribute)):
         return call_node.func.id, g.target.id, ("map", g.iter), g.ifs, gen.elt
     return None
@@ -1275,7 +1306,16 @@ def _range_bounds(I, rargs, frame):
 
 
 def _quant_domain(I, rargs, frame):
-    """returns (guard(t) -> list of z3 bools, lo, hi) ; lo/hi are None for a dict domain"""
+    """returns (guard(t) -> list of z3 bools, lo, hi) ; lo/hi are None for a dict domain.
+    The bound variable is wrapped by I._qwrap (an int, or a heap reference for refs(cls))."""
+    I._qwrap = lambda t: SInt(t)
+    if isinstance(rargs, tuple) and rargs and rargs[0] == "refs":
+        M = _m()
+        clsname = I.eval(rargs[1], frame)
+        cls = I.reg.resolve(clsname)
+        lim = M.heap_limit(I)
+        I._qwrap = lambda t, cls=cls: SRef(cls, t)
+        return (lambda t: [t >= 1, t < lim]), None, None
     if isinstance(rargs, tuple) and rargs and rargs[0] == "map":
         d = I.eval(rargs[1], frame)
         if isinstance(d, dict):
@@ -1295,6 +1335,7 @@ def snapshot_value(v, memo):
         c = SObj.__new__(SObj)
         c.cls, c.oid, c.label, c.frozen = v.cls, v.oid, v.label, getattr(v, "frozen", False)
         c.fields = {}
+        c.heap_snapshot = memo.get("__heap__")
         memo[id(v)] = c
         for k, x in v.fields.items():
             c.fields[k] = snapshot_value(x, memo)
@@ -1304,9 +1345,12 @@ def snapshot_value(v, memo):
     if isinstance(v, SSeq):
         return SSeq(v.arr, v.n, v.ety, v.kind, v.off, v.mem, v.lpos)
     if isinstance(v, SMap):
-        return SMap(v.has, v.val, v.kty, v.vty, v.size, v.keys, v.kpos)
+        return SMap(v.has, v.val, v.kty, v.vty, v.size, v.keys, v.kpos, v.heap if v.heap is not None else memo.get("__heap__"))
     if isinstance(v, SBytesIO):
         return SBytesIO(v.buf, v.pos)
+    if isinstance(v, SRef):
+        h = memo.get("__heap__")
+        return SRef(v.cls, v.id, h if v.heap is None and h is not None else v.heap)
     if isinstance(v, list):
         return [snapshot_value(x, memo) for x in v]
     if isinstance(v, tuple):
@@ -1377,15 +1421,19 @@ def as_lazy_forall(I, conj, frame):
         return None  # only existentially read quantifiers: assumed eagerly with skolem constants
     snap = snapshot_locals(frame)
     base = itp.Frame(frame.fn, snap, frame.globals, frame.info)
+    heap_then = dict(I.path.heap)  # the clause speaks about the heap as it is *now*, not when it is instantiated
 
     def q(t, t2=None):
         sv, st, sd = I.spec, getattr(I, "inst_term", None), getattr(I, "inst_depth", 0)
         I.spec = -1
         I.inst_term = t if t2 is None else (t, t2)
         I.inst_depth = 0
+        heap_now = I.path.heap
+        I.path.heap = dict(heap_then)
         try:
             return I.as_bool_expr(I.eval(conj, base))
         finally:
+            I.path.heap = heap_now
             I.spec = sv
             I.inst_term = st
             I.inst_depth = sd
@@ -1408,7 +1456,21 @@ def spec_call(I, e, frame):
     qp = _quant_parts(I, e)
     if qp is not None:
         which, var, rargs, ifs, elt = qp
+        if isinstance(rargs, tuple) and rargs and rargs[0] == "map":
+            d0 = I.eval(rargs[1], frame)
+            if isinstance(d0, dict):
+                # a concrete dict (e.g. after ``self.data = {}``): the quantifier is a finite conjunction
+                outs = []
+                for key in list(d0):
+                    fr = itp.Frame(frame.fn, {var: key}, frame.globals, frame.info, parent=frame)
+                    guard = [I.as_bool_expr(I.eval(c, fr)) for c in ifs]
+                    body = I.as_bool_expr(I.eval(elt, fr))
+                    outs.append(z3.Implies(z3.And(*guard), body) if which == "all" else z3.And(*(guard + [body])))
+                if not outs:
+                    return which == "all"
+                return SBool(simp(z3.And(*outs) if which == "all" else z3.Or(*outs)))
         dom, lo, hi = _quant_domain(I, rargs, frame)
+        qwrap = I._qwrap
         pol = I.spec
         clo, chi = (concrete_of(lo), concrete_of(hi)) if lo is not None else (None, None)
         if clo is not None and chi is not None and chi - clo <= 64:
@@ -1427,7 +1489,7 @@ def spec_call(I, e, frame):
         if skolem:
             k = I.path.fresh_int(var)
             I.path.add_pool(k)
-            fr = itp.Frame(frame.fn, {var: SInt(k)}, frame.globals, frame.info, parent=frame)
+            fr = itp.Frame(frame.fn, {var: qwrap(k)}, frame.globals, frame.info, parent=frame)
             guard = dom(k) + [I.as_bool_expr(I.eval(c, fr)) for c in ifs]
             body = I.as_bool_expr(I.eval(elt, fr))
             if which == "all":
@@ -1456,7 +1518,7 @@ def spec_call(I, e, frame):
         I.inst_depth = depth + 1
         try:
             for t in terms:
-                fr = itp.Frame(frame.fn, {var: SInt(t)}, frame.globals, frame.info, parent=frame)
+                fr = itp.Frame(frame.fn, {var: qwrap(t)}, frame.globals, frame.info, parent=frame)
                 guard = dom(t) + [I.as_bool_expr(I.eval(c, fr)) for c in ifs]
                 body = I.as_bool_expr(I.eval(elt, fr))
                 outs.append(z3.Implies(z3.And(*guard), body) if which == "all" else z3.And(*(guard + [body])))
